@@ -40,6 +40,7 @@ type VC struct {
 	counters map[string]int
 	extraAxioms []string
 	macroNames  map[string]string
+	prefixApps  map[string][]prefixApp
 	decls []string
 	axioms []string
 	links map[string]*memLink
